@@ -44,10 +44,19 @@ DECLS = {
     # characters and differences that cancel in position-weighted sums (what a weak checksum of the text would miss)
     "P": "    a = Int(1)\n    b = Int(2)\n    c = Int(2)\n    d = Int(1)\n",
     "Pp": "    a = Int(2)\n    b = Int(1)\n    c = Int(1)\n    d = Int(2)\n",
+    # D and Dp: the SAME field lines; the declared default is a named constant with another value (nothing of the difference
+    # is in the text of the generated pack / unpack code)
+    "D": "    a = Int(1, default=KDEF)\n    b = Int(2)\n",
+    "Dp": "    a = Int(1, default=KDEF)\n    b = Int(2)\n",
+    # N and Np: field names that differ only outside ASCII
+    "N": "    a\u00f1o = Int(1)\n    b = Int(2)\n",
+    "Np": "    ano = Int(1)\n    b = Int(2)\n",
     "H": "    a = Int(1).describe(DESC)\n    b = Int(1)\n",
     "Hp": "    a = Int(1).describe(DESC)\n    b = Int(1)\n",
 }
 PRELUDE = {
+    "D": "KDEF = 1\n",
+    "Dp": "KDEF = 2\n",
     "H": "from bisturi.descriptor import Auto\nDESC = Auto(lambda pkt: 7)\n",
     "Hp": ("from bisturi.descriptor import Auto\n"
            "class Stamp(Auto):\n"
@@ -75,7 +84,7 @@ def behaviour(cls):
     try:
         p = cls.unpack(PROBE)
         vals = observe.abs_packet(p)["vals"]
-        return {"vals": vals, "packed": list(p.pack())}
+        return {"vals": vals, "packed": list(p.pack()), "default": list(cls().pack())}
     except Exception as e:
         return {"error": type(e).__name__}
 
@@ -88,7 +97,7 @@ def reference_behaviours(repo):
         for k in DECLS:
             import importlib.util
             path = os.path.join(d, "ref_%s.py" % k)
-            with open(path, "w") as fh:
+            with open(path, "w", encoding="utf-8") as fh:
                 fh.write(source(k, "off"))
             spec = importlib.util.spec_from_file_location("ref_%s" % k, path)
             mod = importlib.util.module_from_spec(spec)
@@ -237,7 +246,7 @@ def _child_main(rfd, wfd, workdir, decl, opts, bytecode_on, refs, free_run, more
     mobj = None
     defs = [(decl, opts)] + list(more_defs)
     for i, (dcl, op) in enumerate(defs):
-        with real_open(os.path.join(workdir, "m.py"), "w") as fh:
+        with real_open(os.path.join(workdir, "m.py"), "w", encoding="utf-8") as fh:
             fh.write(source(dcl, op) + "# definition %d %s\n" % (i, "#" * i))
         # the defining module itself must not be served from stale bytecode (same size, same second)
         shutil.rmtree(os.path.join(workdir, "__pycache__"), ignore_errors=True)
@@ -369,6 +378,16 @@ class Child:
             if after_event is not None:
                 after_event(self, ev)
         self.wait()
+
+    def run_one_definition(self, after_event=None):
+        """let the child finish the class definition it is in (it then blocks at the first file-system step of its next one)"""
+        n0 = len(self.outcomes)
+        self.advance()
+        while self.pending is not None and len(self.outcomes) == n0:
+            ev = self.pending["ev"]
+            self.go()
+            if after_event is not None:
+                after_event(self, ev)
 
     def wait(self):
         try:
